@@ -146,7 +146,8 @@ def _hex_edge_distance(cfg, c, p):
 
 
 def opd_predicates(ap, rng, kind='hex'):
-    """unit piston confined to its segment; linearity; `out` accumulates.  returns list of violations"""
+    """unit piston confined to its segment; linearity; a caller-supplied `out` buffer is accumulated into, never
+    overwritten (result == out_before + compose(out=None)), also in two steps.  returns list of violations"""
     sg, ge, co, po = _impl()
     bad = []
     nseg = len(ap.segment_ids)
@@ -156,44 +157,73 @@ def opd_predicates(ap, rng, kind='hex'):
         nms = [po.noll_to_nm(j) for j in (1, 2, 3, 4)]
         ap.prepare_opd_bases(po.zernike_nm_seq, nms)
         nm = len(nms)
-        compose = lambda c: ap.compose_opd(c)                              # noqa: E731
+        ncen = 0
+        compose = lambda c, cc=None, out=None: ap.compose_opd(c, out=out)                     # noqa: E731
         masks = [(w, m) for w, m in zip(ap.windows, ap.local_masks)]
-        zero = np.zeros((nseg, nm))
     else:
         nms = [po.noll_to_nm(j) for j in (1, 2, 3)]
         nms2 = [po.xy_j_to_mn(j) for j in (1, 2, 3, 4)]
         ap.prepare_opd_bases(po.zernike_nm_seq, nms, po.xy_seq, nms2, rotate_xyaxes=True,
                              segment_basis_kwargs=dict(cartesian_grid=False))
         nm = len(nms2)
-        cz = np.zeros(len(nms))
-        compose = lambda c: ap.compose_opd(cz, c)                          # noqa: E731
+        ncen = len(nms)
+        cz = np.zeros(ncen)
+        compose = lambda c, cc=None, out=None: ap.compose_opd(cz if cc is None else cc, c, out=out)   # noqa: E731
         masks = [(w, m) for w, m in zip(ap.segment_windows, ap.segment_masks)]
-        zero = np.zeros((nseg, nm))
-    # unit piston on a few segments
+    zero = np.zeros((nseg, nm))
+    shape = ap.x.shape
+    bg = rng.normal(size=shape) + 3.0            # a non-zero background already in the caller's buffer
+
+    def confined(name, out, win, m, exact):
+        inside = np.zeros(shape, dtype=bool)
+        inside[win] = m
+        if exact:
+            exp = inside.astype(float)
+            if not np.allclose(out, exp, rtol=0, atol=1e-12):
+                bad.append(f'unit piston on {name} is not the indicator of that segment (max dev {np.abs(out - exp).max():.3g})')
+        if ((out != 0) & ~inside).any():
+            bad.append(f'coefficient on {name} changes {int(((out != 0) & ~inside).sum())} samples outside that segment')
+
+    def onto_background(name, c, cc):
+        ref = compose(c, cc)
+        got = compose(c, cc, out=bg.copy())
+        d = got - bg
+        if not np.allclose(d, ref, rtol=0, atol=1e-12 * max(1.0, float(np.abs(ref).max()))):
+            w = np.argwhere(~np.isclose(d, ref, rtol=0, atol=1e-12 * max(1.0, float(np.abs(ref).max()))))
+            bad.append(f'{name}: composing onto a non-zero `out` buffer is not out + compose(out=None): {len(w)} samples of '
+                       f'the buffer are overwritten or mis-accumulated, e.g. index {w[0].tolist()}')
+        return ref
+
+    # unit piston on a few segments, onto zeros and onto a background
     for t in sorted(set([0, nseg - 1, int(rng.integers(0, nseg))])):
         c = zero.copy()
         c[t, 0] = 1.0
-        out = compose(c)
-        exp = np.zeros_like(out)
         win, m = masks[t]
-        exp[win] = m.astype(out.dtype) * (1.0 if kind == 'hex' else out[win][m][0] if m.any() else 1.0)
-        if kind == 'hex':
-            # Noll 1 is the piston mode == 1 on the segment
-            if not np.allclose(out, exp, rtol=0, atol=1e-12):
-                bad.append(f'unit piston on segment index {t} is not the indicator of that segment (max dev {np.abs(out - exp).max():.3g})')
-        nz = out != 0
-        inside = np.zeros(out.shape, dtype=bool)
-        inside[win] = m
-        if (nz & ~inside).any():
-            bad.append(f'coefficient on segment index {t} changes {int((nz & ~inside).sum())} samples outside that segment')
-    # linearity
+        out = onto_background(f'piston on segment index {t}', c, None)
+        confined(f'segment index {t}', out, win, m, exact=(kind == 'hex'))
+    if kind != 'hex':
+        cc = np.zeros(ncen)
+        cc[0] = 1.0                                # Noll 1: piston on the central disc
+        out = onto_background('piston on the centre segment', zero, cc)
+        confined('the centre segment', out, ap.center_window, ap.center_mask, exact=True)
+    # linearity, and accumulation in two steps through the caller's buffer
     c1 = rng.normal(size=(nseg, nm))
     c2 = rng.normal(size=(nseg, nm))
+    cc1 = rng.normal(size=ncen) if ncen else None
+    cc2 = rng.normal(size=ncen) if ncen else None
     a, b = 0.7, -1.9
-    lhs = compose(a * c1 + b * c2)
-    rhs = a * compose(c1) + b * compose(c2)
-    if not np.allclose(lhs, rhs, rtol=0, atol=1e-11 * max(1.0, float(np.abs(rhs).max()))):
+    r1, r2 = compose(c1, cc1), compose(c2, cc2)
+    scale = max(1.0, float(np.abs(r1).max()), float(np.abs(r2).max()))
+    lhs = compose(a * c1 + b * c2, None if cc1 is None else a * cc1 + b * cc2)
+    rhs = a * r1 + b * r2
+    if not np.allclose(lhs, rhs, rtol=0, atol=1e-11 * scale):
         bad.append(f'compose_opd is not linear in the coefficients (max dev {np.abs(lhs - rhs).max():.3g})')
+    buf = compose(c1, cc1)
+    buf = compose(c2, cc2, out=buf)
+    if not np.allclose(buf, r1 + r2, rtol=0, atol=1e-11 * scale):
+        w = np.argwhere(~np.isclose(buf, r1 + r2, rtol=0, atol=1e-11 * scale))
+        bad.append(f'accumulating two compositions through `out` is not their sum ({len(w)} samples differ, e.g. index {w[0].tolist()})')
+    onto_background('random coefficients', c1, cc1)
     return bad
 
 
@@ -564,7 +594,7 @@ def correspondence(ctx):
             continue
         for b in key_predicates(cfg, x, y, ap)[:1]:
             ctx.pred_fail('keystone', cfg, b)
-        if i % 3 == 0:
+        if True:
             try:
                 for b in opd_predicates(ap, rng, kind='key')[:1]:
                     ctx.pred_fail('compose_opd', cfg, b)
